@@ -301,7 +301,21 @@ GenIdentity(seed) ==
 
 (* C10: "observer pairs" - an earlier rule writes a property (feature, length, stress, tone) that a later rule reads in its input or context. *)
 (* Staging puts a text boundary between the two, so anything the rendering loses becomes visible.                                             *)
+\* a writer that changes the make-up of a syllable (lengthens its vowel, gives it an onset, moves a boundary), then a reader that compares whole
+\* syllables (a syllable variable re-used in its input): whatever the interpreter keeps about a syllable besides its contents must not matter
+HiddenStatePair(seed) ==
+  LET w == Pick(seed, 4, 4)
+      writer == CASE w = 1 -> Rule(<<Grp(9)>>, <<Mx(<<<<"s", "long", TRUE>>>>)>>, <<Env(<<>>, <<WB>>)>>, <<>>)
+                  [] w = 2 -> Rule(<<Empty>>, <<Ipa(Lits[Pick(seed, 5, Len(Lits))])>>, <<Env(<<SB>>, <<Grp(9)>>)>>, <<>>)
+                  [] w = 3 -> Rule(<<Grp(9)>>, <<Mx(<<<<"s", "long", TRUE>>>>)>>, <<Env(<<Grp(1)>>, <<>>)>>, <<>>)
+                  [] OTHER -> Rule(<<Empty>>, <<Ipa(Lits[Pick(seed, 5, Len(Lits))])>>, <<Env(<<WB>>, <<>>)>>, <<>>)
+      r == Pick(seed, 6, 3)
+      reader == CASE r = 1 -> Rule(<<Bind(SylEl(<<>>), 1), VarRef(1)>>, <<VarRef(1)>>, <<>>, <<>>)
+                  [] r = 2 -> Rule(<<Bind(SylEl(<<>>), 1), VarRef(1)>>, <<Mx(<<<<"s", "stress", TRUE>>>>), Mx(<<<<"s", "stress", FALSE>>>>)>>, <<>>, <<>>)
+                  [] OTHER -> Rule(<<Bind(SylEl(<<>>), 1)>>, <<Empty>>, <<Env(<<VarRef(1)>>, <<>>)>>, <<>>)
+  IN <<writer, reader>>
 GenObserverPair(seed) ==
+  IF Chance(seed, 2, 1, 6) THEN HiddenStatePair(seed) ELSE
   LET c == Pick(seed, 3, 5)
       m == CASE c = 1 -> <<"f", FeatPool[Pick(seed, 4, Len(FeatPool))], Chance(seed, 5, 1, 2)>>
              [] c = 5 -> LET nd == NodePool[Pick(seed, 4, Len(NodePool))] IN <<"n", nd, IF nd = "place" THEN FALSE ELSE Chance(seed, 5, 1, 2)>>     \* e.g. [-place]: often a segment that cannot be spelled
